@@ -95,7 +95,23 @@ func (g *caseGen) flow(n, a, m int, deliver bool) {
 	}
 }
 
+// reframed: a replay whose unauthenticated nebula header was altered (reserved bytes, message counter)
+func (g *caseGen) reframed(j int) {
+	switch g.r.Intn(4) {
+	case 0, 1:
+		g.op("dlm %d %d 0", j, 1+g.r.Intn(65535)) // reserved bytes only
+	case 2:
+		g.op("dlm %d %d %d", j, g.r.Intn(3), hlib.Pick(g.r, 1, 2, 3, 7, 1<<40)) // counter (decides only the dispatch)
+	case 3:
+		g.op("dlm %d 0 0", j) // the header written again unchanged
+	}
+}
+
 func (g *caseGen) replay() {
+	if g.r.Chance(1, 4) {
+		g.reframed(g.r.Intn(5))
+		return
+	}
 	switch g.r.Intn(5) {
 	case 0:
 		g.op("dl %d", g.r.Intn(4))
@@ -373,6 +389,25 @@ func genOwnAddrCase(r *hlib.Rand, emit func(string, ...any)) int {
 			g.op("dl %d", r.Intn(3))
 		}
 	}
+	// the initiator dials its OWN addresses (create-tunnel, an unsafe-route gateway set to an own address, a relay
+	// request, a punch notification ...): the ones the responder's certificate also lists get an answer
+	for _, a := range shuffled(r, mine) {
+		if a >= 100 || r.Chance(1, 4) {
+			continue
+		}
+		g.op("lh 0 %d 1", a)
+		if r.Bool() {
+			g.op("hs 0 %d", a)
+		} else {
+			g.op("rehs 0 %d", a)
+		}
+		for i := 0; i < 3; i++ {
+			g.op("sleep %d", g.interval)
+			g.op("tick 0")
+		}
+		g.op("dl 0")
+		g.op("dl 0")
+	}
 	if r.Bool() {
 		// and the other direction: the responder dials one of the initiator's addresses
 		a := mine[r.Intn(len(mine))]
@@ -424,6 +459,8 @@ func genDelayedStage2Case(r *hlib.Rand, emit func(string, ...any)) int {
 			g.op("swap %d %d", n, (n+1)*1000+1+r.Intn(3))
 		case 1:
 			g.op("dlto %d %d", r.Intn(6), g.node())
+		case 2, 3:
+			g.reframed(r.Intn(6)) // the same, with the unauthenticated header altered
 		default:
 			g.op("dl %d", r.Intn(6)) // replay every held tunnel's first message, not only the primary's
 		}
@@ -528,11 +565,97 @@ func genReloadCase(r *hlib.Rand, emit func(string, ...any)) int {
 	return g.ops
 }
 
-func gen(r *hlib.Rand, n int, tier, profile string, emit func(string, ...any)) {
+// genEcmpCase: node 0 has an unsafe route with 2-3 weighted gateways; some gateways have a tunnel, some are
+// pending (or unreachable); tun packets into the routed network with ports spread over the flow hash (distinct
+// lengths, so every packet is recognisable on the wire); then the pending gateways' handshakes complete.
+func genEcmpCase(r *hlib.Rand, emit func(string, ...any)) int {
+	g := &caseGen{r: r, emit: emit, interval: 100, retries: 10}
+	ng := 2 + r.Intn(2)
+	g.nodes = []nodeSpec{{hlib.Pick(r, 2, 2, 3, 1), []int{1}}}
+	var rt []string
+	for i := 1; i <= ng; i++ {
+		g.nodes = append(g.nodes, nodeSpec{2, []int{i + 1}})
+		rt = append(rt, fmt.Sprintf("%d:%d", i+1, hlib.Pick(r, 1, 1, 1, 2, 3, 5)))
+	}
+	var specs []string
+	for _, s := range g.nodes {
+		specs = append(specs, specString(s))
+	}
+	g.op("reset %d %d %s rt0=%s", g.retries, g.interval, strings.Join(specs, " "), strings.Join(rt, ","))
+	up := map[int]bool{}
+	order := shuffled(r, []int{1, 2, 3}[:ng])
+	nUp := r.Intn(ng) // 0 .. ng-1 gateways have a tunnel before traffic starts
+	for i := 1; i <= ng; i++ {
+		if r.Chance(5, 6) {
+			g.op("lh 0 %d %d", i+1, i)
+		}
+	}
+	for _, m := range order[:nUp] {
+		g.op("lh 0 %d %d", m+1, m)
+		g.start3(0, m+1)
+		g.op("dl 0")
+		g.op("dl 0")
+		up[m] = true
+	}
+	ln := 28
+	sends := func(k int) {
+		for i := 0; i < k; i++ {
+			ln++
+			g.op("send 0 %d %d %d", 200+r.Intn(4), hlib.Pick(r, 1000+r.Intn(1000), 1000+r.Intn(1000), 1000+r.Intn(16), 999, 2000), ln)
+		}
+	}
+	sends(3 + r.Intn(8))
+	for i := 0; i < 3; i++ {
+		g.op("sleep %d", g.interval)
+		g.op("tick 0")
+	}
+	sends(2 + r.Intn(6))
+	// the pending gateways answer now: their first messages are the latest transmissions
+	pend := ng - nUp
+	for i := 0; i < pend; i++ {
+		if r.Chance(1, 5) {
+			continue
+		}
+		g.op("dl %d", pend-1-i+i) // a first message among the latest ones
+		g.op("dl 0")               // its answer: completion, queued packets are released
+		if r.Bool() {
+			sends(1 + r.Intn(3))
+		}
+	}
+	sends(1 + r.Intn(4))
+	if r.Bool() {
+		g.ticks(0, 2+r.Intn(4))
+	}
+	return g.ops
+}
+
+// the scripted families once each from a fixed stream: what they exercise does not depend on the run's seed
+func preamble(profile string, emit func(string, ...any)) int {
 	total := 0
+	fix := hlib.NewRand(20260922)
+	for i := 0; i < 3; i++ {
+		switch profile {
+		case "C09":
+			total += genOwnAddrCase(fix, emit)
+			total += genReloadCase(fix, emit)
+		case "C10":
+			total += genDelayedStage2Case(fix, emit)
+		case "C31":
+			total += genRaceChecksCase(fix, emit)
+		case "C32":
+			total += genEcmpCase(fix, emit)
+		}
+	}
+	return total
+}
+
+func gen(r *hlib.Rand, n int, tier, profile string, emit func(string, ...any)) {
+	total := preamble(profile, emit)
 	for total < n {
 		k := r.Intn(100)
 		switch {
+		case profile == "C32" && k >= 70, profile != "C32" && k >= 96:
+			total += genEcmpCase(r, emit)
 		case profile == "C09" && k < 20, profile != "C09" && k < 3:
 			total += genOwnAddrCase(r, emit)
 		case profile == "C09" && k < 36, profile != "C09" && k < 6:
